@@ -342,6 +342,8 @@ inductive WEv (P : Type) where
   | upSigPeer | upRevPeer | upSigBob | upRevBob
   | downSigBob | downRevBob | downSigPeer | downRevPeer
   | restart
+  /-- reconnect of the upstream / downstream channel only -/
+  | flapUp | flapDown
   deriving Repr
 
 /-- why the monitor rejects a wire event. The first five are violations by Bob; `env…`
@@ -408,6 +410,8 @@ def Obs.step (o : Obs P) : WEv P → Except Clause (Obs P)
   | .downSigPeer => .ok { o with down := o.down.sigR }
   | .downRevPeer => .ok { o with down := o.down.revR }
   | .restart => .ok { o with up := o.up.restart, down := o.down.restart }
+  | .flapUp => .ok { o with up := o.up.restart }
+  | .flapDown => .ok { o with down := o.down.restart }
 
 end Monitor
 
